@@ -86,11 +86,7 @@ func (e *panicEngine) analyze(fn *ssa.Function, ctx nilCtx) {
 	e.depth++
 	defer func() { e.depth-- }()
 	name := core.FuncName(fn)
-	pv := core.NewProver(fn)
-	pv.DrawBound = func(v ssa.Value) (ssa.Value, bool) {
-		_, n, ok := e.roles.IsDrawCall(e.p, v)
-		return n, ok
-	}
+	pv := e.prover(fn)
 	nf := &nilFacts{e: e, fn: fn, ctx: ctx}
 	ctxNote := ""
 	if k := ctx.key(); k != "" {
@@ -171,6 +167,17 @@ func (e *panicEngine) analyze(fn *ssa.Function, ctx nilCtx) {
 			}
 		}
 	}
+}
+
+// prover builds a LIN prover for fn with the draw post-condition and stable-load canonicalisation.
+func (e *panicEngine) prover(fn *ssa.Function) *core.Prover {
+	pv := core.NewProver(fn)
+	pv.DrawBound = func(v ssa.Value) (ssa.Value, bool) {
+		_, n, ok := e.roles.IsDrawCall(e.p, v)
+		return n, ok
+	}
+	pv.Canon = core.StableLoads(fn, core.GetEff(e.p))
+	return pv
 }
 
 func isIntType(t types.Type) bool {
@@ -376,7 +383,12 @@ func valueAccessPath(v ssa.Value) (ssa.Value, []string, bool) {
 		if x.Op != token.MUL {
 			return nil, nil, false
 		}
-		return addrAccessPath(x.X)
+		switch x.X.(type) {
+		case *ssa.Alloc, *ssa.Parameter, *ssa.FieldAddr:
+			return addrAccessPath(x.X)
+		}
+		// dereference of a pointer value: same path as the pointer
+		return valueAccessPath(x.X)
 	case *ssa.Parameter:
 		return x, nil, true
 	case *ssa.Field:
@@ -549,12 +561,7 @@ func (e *panicEngine) checkCall(fn *ssa.Function, nf *nilFacts, oblige obligeFn,
 		// bounded-draw precondition n >= 1 is checked at the call site
 		for _, bd := range e.roles.BoundedDraw {
 			if bd == callee && len(com.Args) == 1 {
-				pv := core.NewProver(fn)
-				pv.DrawBound = func(v ssa.Value) (ssa.Value, bool) {
-					_, n, ok := e.roles.IsDrawCall(e.p, v)
-					return n, ok
-				}
-				ok, why := e.boundPositive(pv, c, com.Args[0])
+				ok, why := e.boundPositive(e.prover(fn), c, com.Args[0])
 				oblige(c, "bounded draw: bound >= 1 (the n==0 panic is unreachable)", ok, why)
 			}
 		}
